@@ -429,6 +429,12 @@ func (n *not) Execute(searcher index.GetSearcher, seriesID common.SeriesID, tr *
 	return all, allTS, err
 }
 
+func (n *not) ShouldSkip(_ index.FilterOp) (bool, error) {
+	// A block-level filter can only prove that a value is absent from the block,
+	// never that every row holds it: a negated condition can't rule a block out.
+	return false, nil
+}
+
 func (n *not) MarshalJSON() ([]byte, error) {
 	data := make(map[string]interface{}, 1)
 	data["not"] = n.Inner
